@@ -135,11 +135,11 @@ class TraceKernel:
 MAGNETIC_COMMON = ("up_frac_i", "up_frac_f", "up_theta", "up_phi")
 
 
-def base_pars(i, seed, style="random"):
+def base_pars(i, seed, style="random", below_limit=False):
     """Parameter values (no dispersity, no magnetism) inside the declared limits."""
     from sasmodels import compare
     pars = dict(i.parameters.defaults)
-    if style == "random":
+    if style in ("random", "wide"):
         with compare.push_seed(int(seed) % (2**31)):
             try:
                 p = compare.randomize_pars(i, dict(pars))
@@ -152,12 +152,28 @@ def base_pars(i, seed, style="random"):
             if k in names and not any(s in k for s in ("_pd", "_M0", "_mtheta", "_mphi")) \
                     and k not in MAGNETIC_COMMON:
                 pars[k] = float(v)
+    if style == "wide":
+        # reach regimes the models' own generators avoid (ratios below one, thin shells, ...)
+        r = np.random.default_rng([int(seed) % (2**31), 77])
+        for q in i.parameters.call_parameters:
+            if q.name in pars and q.type not in ("sld", "orientation", "magnetic") and q.name not in ("scale", "background") \
+                    and not getattr(q, "choices", None) and not q.name.startswith("n_"):
+                if (q.units or "") == "" and q.type == "volume":
+                    pars[q.name] = float(pars[q.name]*10**r.uniform(-1.5, 0.0))    # ratios below one
+                elif r.random() < 0.5:
+                    pars[q.name] = float(pars[q.name]*10**r.uniform(-1.3, 0.7))
+        full = dict(i.parameters.defaults)
+        full.update(pars)
+        compare.constrain_pars(i, full)
+        pars = {k: float(full[k]) for k in pars}
     # keep inside limits; controls integer
     for q in i.parameters.call_parameters:
         if q.name not in pars:
             continue
         lo, hi = q.limits
         v = pars[q.name]
+        if below_limit and (q.units or "") == "" and q.type == "volume" and 0 < v < lo:
+            continue      # a ratio entered below its declared lower limit (the kernels handle it)
         if np.isfinite(lo) and v < lo:
             v = lo
         if np.isfinite(hi) and v > hi:
